@@ -8,6 +8,7 @@
   Core Lean only.
 -/
 import YaraModel.Spec.Re
+import YaraModel.Model.ReEmit
 namespace YaraModel.ReAtoms
 open YaraModel.Re
 
@@ -169,5 +170,36 @@ def atomsOf (q : Atom → Int) (m : Mods) (r : Re) : List (List UInt8 × Nat) :=
   let enc := if m.wide then (if m.ascii then base else []) ++ base.map (fun (b, i) => (widen b, i)) else base
   let cased := if m.nocase then enc.flatMap (fun (b, i) => (caseCombos b).map (·, i)) else enc
   if cased.isEmpty then [([], 0)] else cased
+
+/-! ### code positions of the leaves (forward_code_ref / backward_code_ref of the RE nodes) -/
+def clen (back : Bool) (r : Re) : Nat := (YaraModel.ReEmit.emit back r 0).1.length
+
+/-- every emission of a leaf instruction: (leaf id, start offset, end offset), in emission order; `back` = EMIT_BACKWARDS -/
+def leafPos (back : Bool) : Re → Nat → Nat → List (Nat × Nat × Nat)
+  | .cat a b, i, off =>
+      if back then leafPos back b (i + leaves a) off ++ leafPos back a i (off + clen back b)
+      else leafPos back a i off ++ leafPos back b (i + leaves a) (off + clen back a)
+  | .alt a b, i, off => leafPos back a i (off + 4) ++ leafPos back b (i + leaves a) (off + 4 + clen back a + 3)
+  | .star a _, i, off => leafPos back a i (off + 4)
+  | .plus a _, i, off => leafPos back a i off
+  | .range a lo hi _, i, off =>
+      let la := clen back a
+      let p := if lo > 0 then la else 0
+      let rep := decide (hi > lo + 1) || decide (hi > 2)
+      let lr := if rep then 9 + la + 9 else 0
+      (if lo > 0 then leafPos back a i off else []) ++
+      (if rep then leafPos back a i (off + p + 9) else []) ++
+      (if hi > lo then leafPos back a i (off + p + lr + 4) else if hi > 1 then leafPos back a i (off + p + lr) else [])
+  | r, i, off => [(i, off, off + clen back r)]
+
+/-- forward_code_ref of a leaf: its FIRST emitted copy; backward_code_ref: the code after its LAST emitted copy, in the
+    backward code that follows the forward code and its MATCH instruction -/
+def fwdRef (r : Re) (id : Nat) : Option Nat := ((leafPos false r 0 0).find? (·.1 == id)).map (·.2.1)
+def bwdRef (r : Re) (id : Nat) : Option Nat :=
+  (((leafPos true r 0 0).reverse.find? (·.1 == id)).map (·.2.2)).map (· + clen false r + 1)
+
+/-- (forward code offset, backward code offset) of every chosen atom; `none` = no atom (zero-length atom at offset 0) -/
+def atomRefs (q : Atom → Int) (r : Re) : List (Option Nat × Option Nat) :=
+  (chosen q r).map fun a => (fwdRef r (a.headD default).id, bwdRef r (a.headD default).id)
 
 end YaraModel.ReAtoms
